@@ -3,3 +3,8 @@ open LhasaV.Props.C06
 #print axioms no_filter_selects_all
 #print axioms flatten_ignores_path
 #print axioms relocate_prefix
+#print axioms glob_iff
+#print axioms select_spec
+#print axioms glob_literal
+#print axioms glob_trailing_stars
+#print axioms flatten_single_component
